@@ -379,3 +379,25 @@ class gaussian_smooth:
                    "iff(ndi_call('distance_transform_edt')[1][0][i, j, k], not img[i, j, k]), "
                    "(0, img.shape[0]), (0, img.shape[1]), (0, img.shape[2]))",
     }
+
+
+@contract("acryo.pipe._imread:from_array", props=["C19"])
+class from_array:
+    """rescaling provider: the image is returned unchanged exactly when the RELATIVE scale difference
+    |original_scale / scale - 1| is below the tolerance; otherwise it is resampled once with zoom factor
+    original_scale / scale (a function of the ratio only: lemma ratio_invariant); non-positive scales are rejected"""
+    params = dict(scale=T.Real(), img=T.Arr(3, "real"), original_scale=T.Real(), tol=T.Real(lo=0))
+    requires = ["scale > 0"]
+    raises = {"ValueError": "original_scale <= 0"}
+    helpers = _HU
+    lemmas = _LEM_RATIO
+    native_call = "_mod.from_array(args['img'], args['original_scale'], args['tol'])(args['scale'])"
+    native = {"unchanged_within_tolerance": "implies(abs(original_scale / scale - 1) < tol, result is img)",
+              "resampled_to_scale": "implies(abs(original_scale / scale - 1) >= tol, result is not img and "
+                                    "all(abs(result.shape[a] - img.shape[a] * original_scale / scale) <= 1 for a in range(3)))"}
+    ensures = {
+        "unchanged_within_tolerance": "implies(abs(original_scale / scale - 1) < tol, result is img and ndi_count() == 0)",
+        "resampled_to_scale": "implies(abs(original_scale / scale - 1) >= tol, ndi_count() == 1 and "
+                              "result is ndi_call('zoom')[0] and ndi_call('zoom')[1][0] is img and "
+                              "ndi_call('zoom')[1][1] == original_scale / scale)",
+    }
